@@ -130,6 +130,7 @@ type env struct {
 	baseGodi, baseProp   int // godi-framed / propagation goroutines left over by earlier cases of this process
 	contaminated         bool
 	contNoted            bool
+	afterProviderClose   bool
 	tailNormal           bool // fault case: the failed creations were already checked on their own
 	knownGodi, knownProp int  // leftover goroutines already reported at an earlier checkpoint of this case
 	openProp             int  // open scopes derived directly from the custom context: one propagation goroutine each
@@ -507,7 +508,7 @@ const goroutineBound = 10 * time.Second
 func (e *env) checkGoroutines(label, phase string) int {
 	e.c.R.Count("goroutine_checks", 1)
 	if e.contaminated {
-		n, ok, _ := waitGoroutines(e.baseG+e.open+e.openProp+e.knownGodi+e.knownProp, -1, 0, 100*time.Millisecond)
+		n, ok, _ := waitGoroutines(e.baseG+e.open+e.openProp+e.knownGodi+e.knownProp, -1, 0, 20*time.Millisecond)
 		if !ok && !e.contNoted {
 			e.contNoted = true
 			e.inconcl = append(e.inconcl, fmt.Sprintf("%s: goroutine accounting skipped: the worker process already carries %d goroutines leaked by earlier cases (reported there); NumGoroutine=%d", label, e.baseG, n))
@@ -552,6 +553,7 @@ type cpStats struct {
 	Label      string `json:"label"`
 	Cycles     int    `json:"cycles"`
 	Goroutines int    `json:"goroutines_over_baseline"`
+	OpenScopes int    `json:"open_scopes_owning_a_goroutine"`
 	LiveScopes int    `json:"live_scopes"`
 	LiveInsts  int    `json:"live_instances"`
 	LiveCtx    int    `json:"live_ctx_trackers"`
@@ -594,7 +596,9 @@ func (e *env) checkpoint(label string, cycles int, final bool) cpStats {
 	if fault && !e.tailNormal {
 		phase = "failed-create"
 	}
+	e.afterProviderClose = final && e.spec.Where != "build"
 	st.Goroutines = e.checkGoroutines(label, phase)
+	st.OpenScopes = e.open + e.openProp
 
 	// 2. contexts of closed / failed scopes
 	type agg struct {
@@ -615,6 +619,7 @@ func (e *env) checkpoint(label string, cycles int, final bool) cpStats {
 			a.exs = append(a.exs, ex)
 		}
 	}
+	var nCtx, nCap int64
 	r.mu.Lock()
 	nScopes := len(r.scopes)
 	for i := 0; i < nScopes; i++ {
@@ -622,7 +627,7 @@ func (e *env) checkpoint(label string, cycles int, final bool) cpStats {
 		if s.failed || s.closedBy == cbOpen {
 			continue
 		}
-		e.c.R.Count("ctx_checked", 1)
+		nCtx++
 		if !isClosed(s.done) || s.errNil {
 			st.OpenCtx++
 			add("ctx-not-cancelled", "C14/ctx-not-cancelled:via="+closeClass(s.closedBy)+":created-by="+levelClass(s.level),
@@ -639,7 +644,7 @@ func (e *env) checkpoint(label string, cycles int, final bool) cpStats {
 		if !s.failed && s.closedBy == cbOpen {
 			continue
 		}
-		e.c.R.Count("captured_ctx_checked", 1)
+		nCap++
 		if isClosed(d.done) {
 			continue
 		}
@@ -656,6 +661,8 @@ func (e *env) checkpoint(label string, cycles int, final bool) cpStats {
 		}
 	}
 	r.mu.Unlock()
+	e.c.R.Count("ctx_checked", nCtx)
+	e.c.R.Count("captured_ctx_checked", nCap)
 
 	// 3. reachability: up to 5 GC cycles
 	countLive := func(report bool) int {
@@ -809,8 +816,11 @@ func (e *env) checkpoint(label string, cycles int, final bool) cpStats {
 }
 
 func (e *env) closeFeature() string {
+	if e.afterProviderClose {
+		return "provider-close"
+	}
 	if e.spec.Kind == "fault" {
-		return "failed-create"
+		return "close" // the fault-free parts of a fault case close explicitly; failed creations have their own clause
 	}
 	switch e.spec.Close {
 	case "cancel", "cancel+close":
